@@ -58,6 +58,32 @@ fn handle(line: &str, st: &mut State) -> util::R {
             }
             hashes::dispatch(toks[1], &toks[2..], &mut st.hashes)
         }
+        "selftest" => {
+            // deliberately leaky operations: used to check that the taint
+            // instrument is alive (a run that does not flag these is inconclusive)
+            let b = util::bytes(util::arg(&toks, 2)?)?;
+            if b.is_empty() {
+                return Err("need a byte".into());
+            }
+            static TABLE: [u32; 16] = [3, 1, 4, 1, 5, 9, 2, 6, 5, 3, 5, 8, 9, 7, 9, 3];
+            let x = std::hint::black_box(b[0]);
+            let mut acc = 0u32;
+            match toks[1] {
+                "leak_branch" => {
+                    if x & 1 == 1 {
+                        acc = std::hint::black_box(acc + 17);
+                    }
+                }
+                "leak_index" => {
+                    acc = std::hint::black_box(TABLE[(x & 15) as usize]);
+                }
+                "noleak" => {
+                    acc = std::hint::black_box((x as u32).wrapping_mul(2654435761));
+                }
+                _ => return Err("bad selftest".into()),
+            }
+            Ok(util::ou32(acc))
+        }
         "ping" => Ok("pong".into()),
         "cfg" => {
             let mut s = String::new();
